@@ -109,7 +109,9 @@ fn decode_iso_8859_11(bytes: &[u8], out: &mut String) -> Result<(), DataDecoding
     for ch in bytes.iter().copied() {
         match ch {
             0x20..=0x7E => out.push(ch as char),
-            0xA0..=251 => out.push(ISO_8859_11[(ch - 128) as usize]),
+            // 0xDB..=0xDE and 0xFC..=0xFF are not defined
+            0xA0..=0xDA => out.push(ISO_8859_11[(ch - 0xA0) as usize]),
+            0xDF..=0xFB => out.push(ISO_8859_11[(ch - 0xA0 - 4) as usize]),
             _ => return Err(DataDecodingError::CharsetError),
         }
     }
@@ -136,7 +138,7 @@ fn decode_iso_8859_9(bytes: &[u8], out: &mut String) -> Result<(), DataDecodingE
     for ch in bytes.iter().copied() {
         match ch {
             0x20..=0x7E => out.push(ch as char),
-            0xA0..=255 => out.push(ISO_8859_9[(ch - 128) as usize]),
+            0xA0..=255 => out.push(ISO_8859_9[(ch - 0xA0) as usize]),
             _ => return Err(DataDecodingError::CharsetError),
         }
     }
